@@ -39,7 +39,7 @@ CHECKS = {
             "decision-tree extraction: symbolic path enumeration over the two header bytes of each zvt_parse body",
             "For each of the 17 reply enums the parser's decision tree partitions all 65,536 control fields by construction; "
             "every variant-producing leaf is exactly the single point (CLASS, INSTR) of its payload type, decodes the whole "
-            "input with that type's own decoder and wraps its result; everything else and every short input is Err; table == spec; no panic site in the parsers or the helpers they call. Per command, the reply set (control fields) of the enum its sequence parses equals the set the specification lists for that command, whatever the enum is called.",
+            "input with that type's own decoder and wraps its result; everything else and every short input is Err; table == spec; no panic site in the parsers or the helpers they call. Per command, the reply set (control fields) of the enum its sequence parses equals the set the specification lists for that command, whatever the enum is called, and each reply is decoded with a packet type whose layout rows are those of the type the reply table names for it (C15/reply-payload).",
             "Complete for the property's quantifier (control fields); body contents are delegated to the payload decoder (C02/C03). " + TB),
     "C05": ("model_checking", "5.5",
             "event-graph projection of coroutine MIR + protocol-monitor product construction over all paths",
@@ -59,7 +59,7 @@ CHECKS = {
             "guard/edge-dominance, who-may-write and provenance rules over the async client bodies (MIR)",
             "Per-call facts that make the token map a refinement of the open pre-authorisations: guards dominate all terminal traffic, "
             "refusals return the documented error without traffic, the map is private and mutated only at the three allowed sites, what is "
-            "recorded is (token, StatusInformation.receipt_no of this reservation), reversals act on exactly the removed receipt number; the retry wrapper's await budget is per packet (C10-a shared), so a live exchange is not re-issued. A step that empties the whole map is reachable only on the is_empty() edge; once the token is removed no return is reachable around the reversal exchange.",
+            "recorded is (token, StatusInformation.receipt_no of this reservation), reversals act on exactly the removed receipt number; the retry wrapper's await budget is per packet (C10-a shared), so a live exchange is not re-issued, and its failure bookkeeping is per attempt (C09-a/b shared): an attempt the terminal answered completely is final. A step that empties the whole map is reachable only on the is_empty() edge; once the token is removed no return is reachable around the reversal exchange.",
             "The induction over call histories from these per-call facts is argued in DESIGN.md, not mechanised. " + TB),
     "C08": ("other", "5.8",
             "expression-tree comparison of request/summary construction with a wiring table; callee identity of saturating_sub",
@@ -70,7 +70,7 @@ CHECKS = {
             "edge-dominance of CardInfo constructor sites; operation-set/constant/order rules on the uid variable's definitions",
             "Bank only under (!subs.is_empty() && subs[0].application_id.is_some()), MembershipCard only under subs.is_empty(); the "
             "membership id derives from tlv.uuid through exactly upper-case, [len-14..] and strip_prefix(\"000000\") under len > 14; "
-            "abort handling as C20; retry-wrapper bookkeeping (C09-a/b) and read_packet framing (C04-b/d) as necessary conditions.", TB),
+            "abort handling as C20; retry-wrapper bookkeeping (C09-a/b), read_packet framing (C04-b/d) and the BER-TLV length forms of the status containers (C16-b) as necessary conditions.", TB),
     "C19": ("other", "5.19",
             "edge-dominance / cut-reachability / call-order rules and who-may-call tables over the client",
             "end_of_day is only reachable on the true edge of is_empty(transactions); every successful commit/cancel that leaves the map "
@@ -79,19 +79,19 @@ CHECKS = {
     "C20": ("other", "5.20",
             "abort-arm region analysis: return classification and provenance of the error from the packet's result code",
             "For all nine client functions the Abort arm of the reply match never returns Ok, never continues the loop, and its error is "
-            "built from the packet's `error` byte; the three documented translations sit on the edge of exactly their code; success is only returned after a reply that ends the exchange (or the end of the stream), never from the arm of an intermediate reply; nested client operations propagate. The reply streams of the eight exchanges the client runs end exactly at the specified final packets (protocol-monitor clauses shared with C05). Covers all 256 "
+            "built from the packet's `error` byte; the three documented translations sit on the edge of exactly their code; success is only returned after a reply that ends the exchange (or the end of the stream), never from the arm of an intermediate reply; nested client operations propagate, and behind the Err edge of any test of a nested operation's result no Ok is returned; the names of the result codes (discriminants of ErrorMessages) are those of the specification table. The reply streams of the eight exchanges the client runs end exactly at the specified final packets (protocol-monitor clauses shared with C05). Covers all 256 "
             "codes because no other code is inspected.", TB),
     "C09": ("other", "5.9",
             "path-sensitive product analysis (error flag x ghost failure bit x connection slot) of the retry coroutine; dominance chain in connect; who-may-call",
             "Reset on failure and keep on success are decided over all paths of into_stream_with_retry in product with the code's own "
             "error flag; reconnect happens only when the slot is empty and only connect's Ok value is stored; in connect every path to "
             "Ok passes registration (configured password/currency, items `?`-checked), system info and the equal edge of the "
-            "case-insensitive serial comparison; Sequence::into_stream is called nowhere else; the slot is private. From the Err side of every test of a registration / system-info item neither the next exchange nor Ok is reachable.", TB),
+            "case-insensitive serial comparison; Sequence::into_stream is called nowhere else; the slot is private. From the Err side of every test of a registration / system-info item neither the next exchange nor Ok is reachable. The command stream is never started in a product state in which the connection slot is empty.", TB),
     "C10": ("other", "5.10",
             "await-type analysis (generic argument of IntoFuture::into_future) + budget provenance + interval discharge of config arithmetic",
             "Every await point of the client is classified; raw transport awaits are accepted only inside a function whose every call "
             "is the direct argument of tokio::time::timeout; retry streams derive from take(n>0); timeouts are positive; arithmetic on "
-            "configuration values cannot overflow; a deadline bounding an await inside a reply loop is computed inside that loop. The retry stream is assembled from constant constructors only (repeat / throttle(const) / take(const)): a computed pause is not bounded by this rule and is reported. All 29 await points, both budgets, every Overflow site with config operands.",
+            "configuration values cannot overflow; a deadline bounding an await inside a reply loop is computed inside that loop. The retry stream is assembled from constant constructors only (repeat / throttle(const) / take(const)): a computed pause is not bounded by this rule and is reported. A reconnect failure that is not reported cannot reach the exchange (C09-b/stream-on-live-connection shared: it would end the call in a panic, neither result nor error). All 29 await points, both budgets, every Overflow site with config operands.",
             "Wall-clock values and tokio's timer are trusted; 'finite' not 'how long'. " + TB),
     "C02": ("proof", "5.2",
             "site enumeration over the decode-path call-graph closure + guard-fact/interval/contract discharge of every panic, overflow, truncation, allocation site; loop termination classification",
